@@ -7,6 +7,8 @@ import (
 	"os"
 	"runtime"
 	"runtime/debug"
+	"runtime/metrics"
+	"time"
 
 	"vsim/plan"
 )
@@ -19,9 +21,29 @@ import (
 //	worker describe                                        print catalogue information
 //
 // Output: one JSON object {"plan":…, "result":…} on stdout.
+// memoryWatchdog ends the process when it maps more memory than the budget:
+// the sandbox has no memory limit of its own, and a call that needs tens of
+// gigabytes for a small input would take the machine down before the kernel
+// reacts. The exit status 3 and the marker line are read by the driver.
+func memoryWatchdog(limit uint64) {
+	sample := []metrics.Sample{{Name: "/memory/classes/total:bytes"}}
+	for {
+		time.Sleep(50 * time.Millisecond)
+		metrics.Read(sample)
+		if v := sample[0].Value.Uint64(); v > limit {
+			fmt.Fprintf(os.Stderr, "\nfatal error: memory budget exceeded (%d MiB mapped, budget %d MiB) during %s\n", v>>20, limit>>20, CurrentStep)
+			os.Exit(3)
+		}
+	}
+}
+
+// CurrentStep names the step being executed (for the watchdog's message).
+var CurrentStep string
+
 func Main() {
 	runtime.GOMAXPROCS(1)
 	debug.SetGCPercent(-1)
+	go memoryWatchdog(4 << 30)
 	if len(os.Args) < 2 {
 		fmt.Fprintln(os.Stderr, "usage: worker exec|gen|describe ...")
 		os.Exit(2)
@@ -135,6 +157,9 @@ func execStream(p *plan.Plan, res *plan.Result) {
 		res.Cases += cases
 		res.Steps += cases
 		for _, v := range viols {
+			if p.Prop == "C06" && v.Oracle != "panic" && v.Oracle != "termination" {
+				continue
+			}
 			v.Where = fmt.Sprintf("family %d: %s", i, v.Where)
 			res.Violations = append(res.Violations, v)
 		}
